@@ -122,9 +122,65 @@ fn exec_with_flag(file: &File, tree: &Tree, source: &str, globals: &BTreeMap<Str
     (t, flag.count())
 }
 
+/// A caller-supplied function that returns a fixed string.
+struct Constant(String);
+impl tree_sitter_graph::functions::Function for Constant {
+    fn call(&self, _graph: &mut tree_sitter_graph::graph::Graph, _source: &str, parameters: &mut dyn tree_sitter_graph::functions::Parameters) -> Result<tree_sitter_graph::graph::Value, tree_sitter_graph::ExecutionError> {
+        parameters.finish()?;
+        Ok(self.0.clone().into())
+    }
+}
+
+/// One function table used for several executions; between them the caller registers another
+/// implementation under the same name: every execution sees the table as it is at that time.
+fn replaced_function(rng: &mut Rng, out: &mut Out) {
+    let text = "(module) { node n attr (n) first = (zq-origin) node m attr (m) other = (zq-other), again = (zq-origin) }\n";
+    let source = "pass\n";
+    let tree = parse_python(source);
+    let file = match File::from_str(python(), text) {
+        Ok(f) => f,
+        Err(_) => {
+            out.inconclusive("harness: directed program rejected");
+            return;
+        }
+    };
+    let mut functions = stdlib();
+    functions.add(Identifier::from("zq-other"), Constant("other".into()));
+    let vars = Variables::new();
+    for round in 0..4 {
+        let tag = format!("origin-{}-{}", round, rng.below(1000));
+        functions.add(Identifier::from("zq-origin"), Constant(tag.clone()));
+        for lazy in [false, true] {
+            let r = catch(|| {
+                let config = ExecutionConfig::new(&functions, &vars).lazy(lazy);
+                file.execute(&tree, source, &config, &NoCancellation).map(|g| g.pretty_print().to_string())
+            });
+            out.eval();
+            let case = json!({"dsl": text, "round": round, "lazy": lazy, "registered": tag});
+            match r {
+                Ok(Ok(p)) => {
+                    if p.matches(&format!("\"{}\"", tag)).count() != 2 {
+                        out.violation("C12:replaced-function-not-seen", &format!("round {}: the function registered last returns {:?}; the graph is {}", round, tag, crate::util::trunc(&p, 300)), case);
+                        return;
+                    }
+                }
+                Ok(Err(e)) => {
+                    out.violation("C12:replaced-function-not-seen", &format!("execution failed: {}", e), case);
+                    return;
+                }
+                Err(p) => {
+                    out.violation("C12:panic:functions", &format!("{}: {}", p.location, p.message), case);
+                    return;
+                }
+            }
+        }
+    }
+    out.feat("function_replaced_between_executions");
+}
+
 /// programs where "which error is reported" has room to vary
 fn special_text(rng: &mut Rng) -> (String, &'static str) {
-    match rng.below(13) {
+    match rng.below(14) {
         6 => (
             "(identifier) @id { node n attr (n) idx = (named-child-index @id), txt = (source-text @id), cnt = (named-child-count @id) }\n(argument_list (_) @arg) { node m attr (m) arg_idx = (named-child-index @arg), ty = (node-type @arg) }\n".into(),
             "syntax_functions_on_every_node",
@@ -141,6 +197,11 @@ fn special_text(rng: &mut Rng) -> (String, &'static str) {
             let block = *rng.pick(&["if #true", "for q in [1]", "scan \"a\" { \"a\""]);
             let close = if block.starts_with("scan") { " }" } else { "" };
             (format!("(module)\n{{\n  node n\n  {} {{\n    attr (n) val = {}\n  }}{}\n}}\n", block, value, close), "same_layout_different_statement_text")
+        }
+        13 => {
+            let k = rng.below(6);
+            let pad = " ".repeat(rng.below(4));
+            (format!("{}(module) {{ {}scan \"a\" {{ \"(\" {{ }} }} }}\n", "\n".repeat(k), pad), "invalid_scan_regex_at_varying_positions")
         }
         9 => (
             // with debug attributes: a conflict between an attribute the program sets and one the
@@ -242,11 +303,19 @@ impl Prop for C12 {
             Tier::Thorough => 12_000,
         }
     }
-    fn run_case(&self, _cfg: &RunCfg, _idx: usize, rng: &mut Rng, out: &mut Out) {
+    fn run_case(&self, _cfg: &RunCfg, idx: usize, rng: &mut Rng, out: &mut Out) {
+        if idx % 20 == 9 {
+            replaced_function(rng, out);
+            return;
+        }
         let c = make_case(rng);
         let cj = || json!({"dsl": c.text, "source": c.sources[0], "globals": c.globals.iter().map(|(k, v)| (k.clone(), v.to_json())).collect::<serde_json::Map<_, _>>(), "kind": c.kind});
         out.feat(&format!("kind:{}", c.kind));
         // loading is deterministic
+        if c.kind == "invalid_scan_regex_at_varying_positions" {
+            // another text with the same defect further down is loaded first
+            let _ = load_transcript(&format!("\n\n\n; moved\n{}", c.text));
+        }
         let first = load_transcript(&c.text);
         for _ in 0..3 {
             let again = load_transcript(&c.text);
@@ -268,6 +337,17 @@ impl Prop for C12 {
                 if e.starts_with("PANIC") {
                     out.violation("C12:load-panic", &e, cj());
                     return;
+                }
+                // the same defect at another place in another text: the diagnostic is about *this*
+                // text, whatever was loaded before in this process
+                if c.kind == "invalid_scan_regex_at_varying_positions" {
+                    let row = c.text.chars().take_while(|ch| *ch == '\n').count();
+                    let want = format!("f.tsg:{}:", row + 1);
+                    if !e.contains(&want) {
+                        out.violation("C12:diagnostic-of-another-load", &format!("the invalid regex sits on line {} of this text; the diagnostic reads {:?}", row + 1, crate::util::trunc(&e, 300)), cj());
+                        return;
+                    }
+                    out.feat("invalid_regex_cited_where_it_is");
                 }
                 out.nontrivial(hash_str(&c.text));
                 return;
